@@ -54,7 +54,9 @@ CLAIM = dict(
          'Partial: finiteness (no overflow, no NaN) of float results is not a Coq theorem; it is validated on every run: '
          'the models at binary64 with replayed LAPACK outputs agree with the implementation (shapes exactly, dense '
          'tensors to 1e-9) on the degenerate catalogue, and a search checks np.isfinite + well-formedness of every '
-         'TT-returning routine and finiteness / sentinel of the scalar functions on that catalogue. The '
+         'TT-returning routine and finiteness / sentinel of the scalar functions on that catalogue. Known finding (tagged, not a violation): accuracy_on_data and e_vld of als / cross return NaN when max|y_data| is '
+         'above 1e154, because the squared reference overflows (key C11/accuracy_on_data-reference-overflow; fixed '
+         'regression inputs in the search; reference values up to 1e150 and down to 5e-324 are in the verdict). The '
          'composition of the ANOVA pieces into anova(order=2) and anova_func are covered by that search only (no C11 theorem); '
          'the models Qtt.v / Als.v / AlsFunc.v / Cross.v / Func.v are tied to the code by the C17 / C07 / C06 / C12 '
          'correspondences, here only through the implementation-level search.',
@@ -747,6 +749,9 @@ def check_accuracy(tn, Y1, Y2):
     return None
 
 
+KF_AOD = 'C11/accuracy_on_data-reference-overflow'
+
+
 def check_aod(tn, Y, I, y):
     """accuracy_on_data: finite, and exactly the sentinel -1 when every reference value is zero"""
     inp = dict(routine='accuracy_on_data', Y=tt_json(Y), I=[list(map(int, r)) for r in I], y=[float(v) for v in y])
@@ -754,6 +759,10 @@ def check_aod(tn, Y, I, y):
         a = tn.accuracy_on_data([G.copy() for G in Y], np.array(I, dtype=int), np.array(y, dtype=float))
     except Exception as e:  # noqa
         return dict(what=f'accuracy_on_data raised: {e!r}'[:300], input=inp)
+    if np.isnan(a) and float(np.max(np.abs(np.array(y, dtype=float)))) > 1e154:
+        # known family: the squared reference overflows (inf / inf); everything else stays a violation
+        return dict(what=f'accuracy_on_data returned {a!r}: max|y_data| above 1e154, the squared reference overflows',
+                    input=inp, finding_key=KF_AOD)
     if not np.isfinite(a):
         return dict(what=f'accuracy_on_data returned {a!r} instead of a finite number / the sentinel -1', input=inp)
     if not np.any(np.array(y)) and a != -1:
@@ -905,6 +914,9 @@ def check_fit(tn, name, ns, kind, seed, extra):
                        e_vld=1e-12 if yv is not None else None, **kw)
             for key in ('e', 'e_vld'):
                 if key in info and info[key] is not None and not np.isfinite(info[key]):
+                    if key == 'e_vld' and np.isnan(info[key]) and vs and vs > 1e154:
+                        return dict(what=f"als info['e_vld'] = nan: max|y_vld| above 1e154, the squared reference overflows",
+                                    input=inp, finding_key=KF_AOD)
                     return dict(what=f"als info['{key}'] = {info[key]!r} (neither finite nor the sentinel -1)", input=inp)
         elif name == 'cross':
             val = {'zero': 0., 'constant': 2.}.get(kind)
@@ -925,6 +937,9 @@ def check_fit(tn, name, ns, kind, seed, extra):
                          dr_max=extra.get('dr', 1) + 1, info=info, cache={} if extra.get('cache') else None, **kwc)
             for key in ('e', 'e_vld'):
                 if key in info and info[key] is not None and not np.isfinite(info[key]):
+                    if key == 'e_vld' and np.isnan(info[key]) and vs and vs > 1e154:
+                        return dict(what=f"cross info['e_vld'] = nan: max|y_vld| above 1e154, the squared reference overflows",
+                                    input=inp, finding_key=KF_AOD)
                     return dict(what=f"cross info['{key}'] = {info[key]!r} (neither finite nor the sentinel -1)", input=inp)
         else:
             raise KeyError(name)
@@ -1068,7 +1083,7 @@ def search(R, ctx, deep, hints):
 
     def add(f):
         if f:
-            key = (f['what'][:60], f['input'].get('routine'), f['input'].get('what'))
+            key = (f['what'][:60], f['input'].get('routine'), f['input'].get('what'), f.get('finding_key'))
             if key not in seen:          # one representative per routine and failure kind, smallest first
                 seen.add(key)
                 fails.append(f)
@@ -1210,6 +1225,14 @@ def search(R, ctx, deep, hints):
                 n_eval += 2
                 add(check_fit(tn, 'als', ns, kind, seed, dict(r=2, nswp=2, vld_scale=v)))
                 add(check_fit(tn, 'cross', ns, kind, seed, dict(r=1, nswp=2, m=200, vld_scale=v)))
+    # 4d. fixed regression cases of the known finding C11/accuracy_on_data-reference-overflow (tagged, not a violation)
+    Ik = [[0, 0], [1, 1], [2, 0], [1, 1]]
+    for Yk in (tn.const([3, 2], 0.), tn.const([3, 2], 1.), tn.const([3, 2], 1e-200)):
+        n_eval += 1
+        add(check_aod(tn, Yk, Ik, [1e200] * 4))
+    n_eval += 2
+    add(check_fit(tn, 'als', [3, 2], 'constant', 7, dict(r=2, nswp=2, vld_scale=1e200)))
+    add(check_fit(tn, 'cross', [3, 2], 'constant', 7, dict(r=1, nswp=2, m=200, vld_scale=1e200)))
     # 5. scale families x every routine with a use_stab path, plus accuracy
     sfam = {}
     for fam, Y, tol in scale_catalogue(rng, big=deep):
@@ -1235,14 +1258,11 @@ def search(R, ctx, deep, hints):
                          families=fam_count, scale_families=sfam))
     # observation outside the property (lead's decision): erank of a one-dimensional tensor
     try:
-        v200 = tn.accuracy_on_data(tn.const([3, 2], 0.), np.array([[0, 0], [1, 1], [2, 0], [1, 1]]), np.full(4, 1e200))
-        R.notes.append(f'observation (overflow family, reported to the lead, not in the verdict): accuracy_on_data(const([3,2],0.), '
-                       f'[[0,0],[1,1],[2,0],[1,1]], full(4, 1e200)) = {v200!r} (squares of the reference values overflow)')
         R.notes.append(f'observation: erank of a d=1 tensor = {tn.erank([np.ones((1, 3, 1))])!r} (d=1 is outside the '
                        f'families named by the property)')
     except Exception as e:  # noqa
         R.notes.append('observation probe raised ' + repr(e)[:100])
-    return fails[:20]
+    return sorted(fails, key=lambda f: 'finding_key' in f)[:25]      # genuine violations first, tagged known ones last
 
 
 def replay(data):
